@@ -28,16 +28,14 @@ ASSUMPTIONS = ['A-NPS: npstructures.RaggedArray (external library) is modelled b
                'validated against it on every generated program, not verified',
                'characters are ASCII; for alphabet encodings the "corresponding Python string" is the upper-cased text '
                '(encodings are case-insensitive by design, C06)',
-               'comparison / assignment operands avoid the characters (non-letter member)+32 that the alphabet lookup '
-               'table wrongly accepts (known finding of C06)',
                'bnp.ragged_slice / a[starts:ends] mean segments of the FLATTENED text (tests/test_ragged_slice.py pins this; '
                'the docstring of bnp.ragged_slice says column-wise)',
                'assignment targets never repeat a position (NumPy leaves the order of such writes unspecified)']
-PARTIAL = ['C07_lookup_pinned_partial / C07_program_pinned_partial: with the lookup table of the code at HEAD the simulation '
-           'holds for operand characters outside (non-letter member)+32 (C06 finding); C07_lookup_pinned_refuted exhibits '
-           'DigitEncoding "P"; C07_lookup_fixed / C07_program_fixed are unrestricted for the repaired table',
-           'C07_step_pinned_partial / _refuted: at HEAD storing one character at ONE integer position raises (finding '
-           'C07-setitem-scalar-position); everywhere else HEAD is the step function the theorems are about',
+PARTIAL = ['history only: C07_lookup_pinned_partial / C07_program_pinned_partial / C07_lookup_pinned_refuted are about the lookup '
+           'table before the C06 repair (restricted to operand characters outside (non-letter member)+32, refuted at '
+           'DigitEncoding "P"); C07_lookup / C07_program are unrestricted for the table of /repo HEAD, which the model uses',
+           'history only: C07_step_pinned_partial / _refuted describe the code before fix 5b17763 (one character stored at ONE '
+           'integer position raised); C07_step_repaired says the code at HEAD is the step function the theorems are about',
            'string_array(...) (op SArr) is outside the simulation theorem (trailing NULs vanish in the fixed-width view); '
            'it is checked by correspondence only',
            'unsupported forms, not generated: np.full_like(encoded, ch) (TypeError always), r[rows] = ch and r[rows, a:b] = ch '
@@ -87,7 +85,8 @@ def member(enc, ch):
 
 
 def shadow(enc, ch):
-    """characters the lookup table of the code at HEAD wrongly accepts: (non-letter member)+32  (C06 finding)"""
+    """(non-letter member)+32: the characters the lookup table wrongly accepted before the C06 repair (c99b89e);
+    at /repo HEAD they are foreign like any other character and every comparison / assignment with them must raise"""
     a = ENCS[enc]
     if a is None:
         return False
@@ -618,11 +617,23 @@ def _alpha_chars(enc):
     return BASE_CHARS if ENCS[enc] is None else ENCS[enc]
 
 
+def _shifted(enc):
+    """the (non-letter member)+32 characters of an encoding that are not members themselves
+    ('P'..'Y' for digits, 'K','M','N' for strand, 'J' for amino acids, ']' for BAM / CIGAR op)"""
+    a = ENCS[enc]
+    if a is None:
+        return ''
+    return ''.join(chr(ord(c) + 32) for c in a if not c.isalpha() and not member(enc, chr(ord(c) + 32)))
+
+
 def _foreign(enc, rng):
-    """a character outside the alphabet that the HEAD lookup table also rejects"""
+    """a character outside the alphabet; one time in three a (non-letter member)+32 character when there is one"""
+    sh = _shifted(enc)
+    if sh and rng.random() < 0.34:
+        return rng.choice(sh)
     for _ in range(50):
         ch = rng.choice('XZ#@!xz~')
-        if not member(enc, ch) and not shadow(enc, ch):
+        if not member(enc, ch):
             return ch
     return None
 
@@ -933,6 +944,19 @@ def generate(tier, seed):
             init = dict(kind='F', s=_rstr(rng, 'DNA' if enc == 'Base' else enc, rng.randint(2, 6)))
             enc = 'DNA' if enc == 'Base' else enc       # base-encoded text from a str is read-only at HEAD (finding)
         cases.append(_program(rng, enc, init, rng.randint(0, 2), forced=('copy', 'set', 'set')))
+    # 4. (non-letter member)+32 characters against every encoding that has them: every use must raise EncodingError
+    for enc in ENC_IDS:
+        for ch in _shifted(enc):
+            a = ENCS[enc]
+            rows = [a[:2], '', a[-1] + a[0]]
+            cases.append(dict(enc=enc, init=dict(kind='R', rows=rows), ops=[
+                ['eq', ['c', ch], False], ['mask_eq', ch, False], ['streq', a[0] + ch],
+                ['eq', ['b', [a[0] + ch, '', a[-1] + a[0]]], True], ['set', ['row', 0], ['c', ch]],
+                ['set', ['rc', ['s', [None, None, None]], [0, 1, None]], ['b', [ch, '', a[0]]]],
+                ['str']]))
+            cases.append(dict(enc=enc, init=dict(kind='F', s=a[:3]), ops=[
+                ['eq', ['c', ch], True], ['eq', ['b', (a[0] + ch + a[1])[:len(a[:3])]], False], ['mask_eq', ch, True],
+                ['set', ['idx', ['s', [0, 1, None]]], ['c', ch]], ['set', ['mask_eq', a[0]], ['c', ch]], ['str']]))
     cases = [c for c in cases if c['ops']]
     cases.sort(key=lambda c: len(c['ops']) * 100 + len(str(c['init'])))
     return cases
